@@ -204,6 +204,35 @@ class Interp:
             raise ReturnSig(self.eval(s.value, env) if s.value is not None else None)
         elif isinstance(s, ast.Pass):
             return
+        elif isinstance(s, ast.Delete):
+            for t in s.targets:
+                if not isinstance(t, ast.Subscript):
+                    self.bad(s, 'del of a non-subscript')
+                base = self.eval(t.value, env)
+                if isinstance(t.slice, ast.Slice):
+                    lo = self.eval(t.slice.lower, env) if t.slice.lower is not None else None
+                    hi = self.eval(t.slice.upper, env) if t.slice.upper is not None else None
+                    if isinstance(base, AList) and all(x is None or (isinstance(x, int) and not isinstance(x, bool)) for x in (lo, hi)) and t.slice.step is None:
+                        del base.l[lo:hi]
+                    else:
+                        self.bad(s, 'del of a slice outside the subset')
+                else:
+                    key = self.eval(t.slice, env)
+                    if isinstance(base, AList):
+                        if isinstance(key, float):
+                            raise RaiseSig('TypeError', ('list indices must be integers or slices, not float',), s)
+                        if not isinstance(key, int):
+                            self.bad(s, 'del with a non-concrete index')
+                        try:
+                            del base.l[key]
+                        except IndexError:
+                            raise RaiseSig('IndexError', (key,), s)
+                    elif isinstance(base, ADict):
+                        if key not in base.d:
+                            raise RaiseSig('KeyError', (key,), s)
+                        del base.d[key]
+                    else:
+                        self.bad(s, 'del on a non-container')
         elif isinstance(s, ast.For):
             it = self.eval(s.iter, env)
             seq = self.iterate(it, s.iter)
@@ -247,8 +276,13 @@ class Interp:
             key = self.eval(t.slice, env)
             if isinstance(base, ADict):
                 base.d[key] = val
+            elif isinstance(base, AList) and isinstance(key, float):
+                raise RaiseSig('TypeError', ('list indices must be integers or slices, not float',), t)
             elif isinstance(base, AList) and isinstance(key, int):
-                base.l[key] = val
+                try:
+                    base.l[key] = val
+                except IndexError:
+                    raise RaiseSig('IndexError', (key,), t)
             elif base is None:
                 raise RaiseSig('TypeError', ("'NoneType' object does not support item assignment",), t)
             else:
@@ -354,7 +388,8 @@ class Interp:
                         except Exception:
                             pass
                 return ('extern', modname, orig)
-            if e.id in ('len', 'next', 'iter', 'reversed', 'list', 'enumerate', 'isinstance', 'str', 'int', 'float', 'dict', 'tuple', 'range', 'bool', 'min', 'max'):
+            if e.id in ('len', 'next', 'iter', 'reversed', 'list', 'enumerate', 'isinstance', 'str', 'int', 'float', 'dict', 'tuple', 'range', 'bool', 'min', 'max',
+                        'ord', 'chr', 'callable'):
                 return ('builtin', e.id)
             self.bad(e, f'unknown name {e.id}')
         if isinstance(e, ast.Dict):
@@ -428,7 +463,9 @@ class Interp:
             if isinstance(e.slice, ast.Slice):
                 lo = self.eval(e.slice.lower, env) if e.slice.lower is not None else None
                 hi = self.eval(e.slice.upper, env) if e.slice.upper is not None else None
-                if isinstance(base, AList):
+                if isinstance(base, (AList, str)) and any(isinstance(x, float) for x in (lo, hi)):
+                    raise RaiseSig('TypeError', ('slice indices must be integers',), e)
+                if isinstance(base, AList) and all(x is None or isinstance(x, int) for x in (lo, hi)):
                     return AList(base.l[lo:hi])
                 r = self.slice_hook(base, lo, hi, e)
                 if r is not NotImplemented:
@@ -441,6 +478,13 @@ class Interp:
                 if key not in base.d:
                     raise RaiseSig('KeyError', (key,), e)
                 return base.d[key]
+            if isinstance(base, (AList, str)) and isinstance(key, float):
+                raise RaiseSig('TypeError', ('indices must be integers or slices, not float',), e)
+            if isinstance(base, str) and isinstance(key, int):
+                try:
+                    return base[key]
+                except IndexError:
+                    raise RaiseSig('IndexError', (key,), e)
             if isinstance(base, AList):
                 if not isinstance(key, int):
                     self.bad(e, 'list index is not a concrete int')
@@ -668,8 +712,18 @@ class Interp:
                     if all(isinstance(x, str) for x in items):
                         return base.join(items)
                     return Sym('join', tuple(items))
-                if m in ('strip', 'rstrip', 'lstrip', 'lower', 'upper'):
+                if m in ('strip', 'rstrip', 'lstrip', 'lower', 'upper') and not args:
                     return getattr(base, m)()
+                if m in ('find', 'rfind', 'startswith', 'endswith', 'replace', 'count', 'index', 'rindex', 'strip', 'lstrip', 'rstrip', 'removeprefix', 'removesuffix') \
+                        and all(isinstance(a, (str, int)) and not isinstance(a, bool) for a in args):
+                    try:
+                        return getattr(base, m)(*args)
+                    except ValueError as exc:
+                        raise RaiseSig('ValueError', (str(exc),), e)
+                if m in ('find', 'rfind') and any(isinstance(a, float) for a in args):
+                    raise RaiseSig('TypeError', ('slice indices must be integers',), e)
+                if m == 'split' and all(isinstance(a, str) for a in args):
+                    return AList(base.split(*args))
             self.bad(e, f'method call .{m}() on {type(base).__name__}')
         if isinstance(f, ast.Name) and f.id in self.oracles and f.id not in env:
             return self.oracles[f.id]([self.eval(a, env) for a in e.args], e)
@@ -736,12 +790,20 @@ class Interp:
                     return args[0].args[0] in classes or 'Exception' in classes or 'BaseException' in classes
                 if isinstance(args[0], Sym):
                     raise Unrecognised(self.rule, 'isinstance on a symbolic value', self.mod.rel)
-                cls = norm(e.args[1])
                 v = args[0]
-                table = {'str': isinstance(v, (str, ALine)), 'dict': isinstance(v, ADict), 'list': isinstance(v, AList), 'int': isinstance(v, int)}
-                if cls in table:
-                    return table[cls]
-                self.bad(e, 'isinstance class outside the subset')
+                classes = [norm(x) for x in (e.args[1].elts if isinstance(e.args[1], ast.Tuple) else [e.args[1]])]
+                table = {'str': isinstance(v, (str, ALine)), 'dict': isinstance(v, ADict), 'list': isinstance(v, AList), 'int': isinstance(v, int),
+                         'float': isinstance(v, float), 'bool': isinstance(v, bool), 'complex': False, 'tuple': isinstance(v, tuple)}
+                concrete = v is None or isinstance(v, (int, float, str, bool, ADict, AList, tuple))
+                res = False
+                for cls in classes:
+                    if cls in table:
+                        res = res or table[cls]
+                    elif concrete and cls in ('datetime.date', 'datetime.datetime', 'REGEX_TYPE', 're.Pattern', 'uuid.UUID', 'date', 'datetime'):
+                        pass
+                    else:
+                        self.bad(e, f'isinstance class {cls} outside the subset')
+                return res
             if name == 'dict':
                 return ADict()
             if name in ('set', 'frozenset'):
@@ -751,7 +813,21 @@ class Interp:
             if name == 'bool':
                 return self.truth(args[0], e)
             if name in ('int', 'float'):
+                if isinstance(args[0], (int, float)) and not isinstance(args[0], bool):
+                    try:
+                        return int(args[0]) if name == 'int' else float(args[0])
+                    except (ValueError, OverflowError) as exc:
+                        raise RaiseSig(type(exc).__name__, (str(exc),), e)
                 return Sym(name, args[0])
+            if name == 'ord' and isinstance(args[0], str) and len(args[0]) == 1:
+                return ord(args[0])
+            if name == 'chr' and isinstance(args[0], int):
+                return chr(args[0])
+            if name == 'abs' and isinstance(args[0], (int, float)):
+                return abs(args[0])
+            if name == 'callable':
+                return isinstance(args[0], (ModuleFunc,)) or (isinstance(args[0], tuple) and args[0] and args[0][0] in ('closure', 'partial', 'extern', 'builtin')) or \
+                    (isinstance(args[0], Sym) and args[0].kind == 'hostfn')
             self.bad(e, f'builtin {name}')
         if isinstance(fn, ModuleFunc):
             if fn.node.name == 'parse_expression':
@@ -766,7 +842,35 @@ class Interp:
         r = self.call_value_hook(fn, args, e)
         if r is not NotImplemented:
             return r
+        if isinstance(fn, tuple) and fn and fn[0] == 'extern' and getattr(self, 'repo', None) is not None:
+            other = self.repo.resolve_module(fn[1]) if fn[1].startswith('.') else self.repo.module(fn[1])
+            if other is not None and fn[2] in other.funcs:
+                return self.sub_interp(other).call_function(other.funcs[fn[2]], args, e, kwargs)
         self.bad(e, 'call outside the interpreted subset')
+
+    def sub_interp(self, other):
+        """interpreter for another repository module sharing oracles, hooks and scenario state with this one"""
+        cache = self.__dict__.setdefault('_subs', {})
+        if other.name not in cache:
+            sub = object.__new__(type(self))
+            sub.__dict__ = dict(self.__dict__)
+            sub.mod = other
+            sub.globals = {}
+            for name in other.assigns:
+                v = other.assigns[name][0]
+                if isinstance(v, ast.Call) and norm(v.func) == 're.compile':
+                    sub.globals[name] = ARegex(name)
+            for name, f in other.funcs.items():
+                if '.' not in name:
+                    sub.globals[name] = ModuleFunc(f)
+            for name in other.classes:
+                sub.globals[name] = ('class', name)
+            sub._lazy = {}
+            sub._subs = cache
+            cache[other.name] = sub
+        sub = cache[other.name]
+        sub.depth = self.depth
+        return sub
 
     def call_value_hook(self, fn, args, e):
         return NotImplemented
